@@ -161,12 +161,16 @@ func e2eSequences(c *e2eCtx) error {
 	// directed sequences outside the alphabet: the sources are reverted by hand while the
 	// (untracked) generated package stays — clean must still remove it, and a second track must
 	// reproduce the first instrumentation
-	nDirected := 4
+	nDirected := 9
 	if c.thorough() {
 		nDirected = 24
 	}
 	c.parallel(nDirected, func(i int, r *rand.Rand) {
-		s, err := c.newScenario(2000+i, r, proj.Opts{InScope: true, SmallBody: true, RootMain: r.Intn(2) == 0}, func(r *rand.Rand, old string) proj.Config {
+		nMains := 0
+		if i%3 == 1 {
+			nMains = 2 + r.Intn(2)
+		}
+		s, err := c.newScenario(2000+i, r, proj.Opts{InScope: true, SmallBody: true, RootMain: r.Intn(2) == 0, Mains: nMains}, func(r *rand.Rand, old string) proj.Config {
 			cfg := proj.DefaultConfig(old)
 			cfg.Granularity = pick(r, []string{"line", "patch", "scope", "func"})
 			cfg.Precision = pick(r, []int{1, 2, 3})
@@ -199,6 +203,92 @@ func e2eSequences(c *e2eCtx) error {
 		c.mu.Lock()
 		c.res.NonTrivial++
 		c.mu.Unlock()
+		alias, ip := s.cfg.Alias, proj.Module+"/"+s.cfg.PkgPath
+		switch i % 3 {
+		case 1:
+			// configuration change between the commands: track with every main package selected,
+			// then `mainEntries` narrowed to one main package, an insert marker in a library, patch —
+			// the tree must still build and the tables / service starts must match the selection
+			var mains []string
+			for _, pk := range s.p.Pkgs {
+				if pk.IsMain {
+					mains = append(mains, pk.Dir)
+				}
+			}
+			if len(mains) < 2 {
+				return
+			}
+			c.count("directed:track-narrow-mainEntries-patch")
+			s.cfg.MainEntries = []string{mains[r.Intn(len(mains))]}
+			proj.WriteConfig(s.dir, s.cfg)
+			var libs []string
+			for _, pth := range goFilesOf(first, s.cfg) {
+				lib := pth != genRel
+				for _, pk := range s.p.Pkgs {
+					if pk.IsMain && filepath.Dir(pth) == filepath.Clean(pk.Dir) {
+						lib = false
+					}
+				}
+				if lib {
+					libs = append(libs, pth)
+				}
+			}
+			tree := proj.ReadTree(s.dir)
+			if len(libs) == 0 || addInserts(tree, libs, r, 1) == 0 {
+				return
+			}
+			writeFiles(s.dir, tree, libs)
+			rp2 := func(extra map[string]any) map[string]any {
+				m := s.replay(map[string]any{"sequence": "track (mainEntries *), mainEntries narrowed to " + s.cfg.MainEntries[0] + ", insert marker, patch", "config_desc": s.desc})
+				for k, v := range extra {
+					m[k] = v
+				}
+				return m
+			}
+			pr := proj.RunGoat(c.goat, s.dir, nil, "patch")
+			if pr.Exit != 0 || isPanic(pr.Stderr) {
+				c.violate("C11,C10", fmt.Sprintf("after [track, mainEntries narrowed, insert marker] goat patch exits %d: %s", pr.Exit, lastLine(pr.Stderr)), rp2(nil))
+				return
+			}
+			if ok, out := proj.GoBuild(s.dir); !ok {
+				c.violate("C11,C10", "after [track, mainEntries narrowed, insert marker, patch] the tree does not build: "+firstLine(out, ""), rp2(map[string]any{"build": tail(out, 1500)}))
+				return
+			}
+			if in, err := oracle.Scan(s.dir, alias, ip, s.cfg.PkgPath); err == nil {
+				c.judgeC05As("C05,C11", s, in, rp2)
+			}
+			return
+		case 2:
+			// blocks marked for deletion by hand, then clean WITHOUT patch: nothing of goat may stay
+			c.count("directed:track-delete-markers-clean")
+			tree := proj.ReadTree(s.dir)
+			files := goFilesOf(tree, s.cfg)
+			if flipDeletes(tree, files, r, 1+r.Intn(3), false) == 0 {
+				return
+			}
+			writeFiles(s.dir, tree, files)
+			cl := proj.RunGoat(c.goat, s.dir, nil, "clean")
+			rp2 := s.replay(map[string]any{"sequence": "track, +goat:generate -> +goat:delete on some blocks, clean", "config_desc": s.desc, "stderr": tail(cl.Stderr, 1200)})
+			if cl.Exit != 0 {
+				c.violate("C11,C06", fmt.Sprintf("after [track, delete markers] goat clean exits %d: %s", cl.Exit, lastLine(cl.Stderr)), rp2)
+				return
+			}
+			if in, err := oracle.Scan(s.dir, alias, ip, s.cfg.PkgPath); err == nil && (len(in.Calls) > 0 || len(in.Serve) > 0 || len(in.Markers) > 0 || len(in.Imports) > 0) {
+				c.violate("C11,C06", fmt.Sprintf("after [track, delete markers, clean] artefacts remain: %d calls, %d service starts, markers in %v, imports in %v",
+					len(in.Calls), len(in.Serve), keysOf(in.Markers), keysOfB(in.Imports)), rp2)
+				return
+			}
+			after := proj.ReadTree(s.dir)
+			for _, pth := range sortedKeys(s.newTree) {
+				if strings.HasSuffix(pth, ".go") && after[pth] != s.newTree[pth] {
+					if d := oracle.SameProgram([]byte(s.newTree[pth]), []byte(after[pth]), alias, ip); d != "" {
+						c.violate("C11,C06", fmt.Sprintf("after [track, delete markers, clean] %s differs from the user's text: %s", pth, d), rp2)
+						return
+					}
+				}
+			}
+			return
+		}
 		proj.Git(s.dir, 0, "checkout", "-q", "--", ".")
 		cl := proj.RunGoat(c.goat, s.dir, nil, "clean")
 		if cl.Exit != 0 {
